@@ -41,6 +41,22 @@ fn left_env_of(code: &V) -> V {
     V::nil()
 }
 
+/// the function table is a binary tree whose leaves are function bodies: walking down from the root, a node whose tree
+/// hash is a key of the symbol table is a leaf.  Returns how many leaves share their hash with an earlier leaf (two
+/// functions with identical code have one key, hence one entry, between them).
+fn surplus_leaves(table: &V, keys: &std::collections::HashSet<String>, seen: &mut HashMap<String, usize>) -> usize {
+    let h = hex::encode(sha256tree(table));
+    if keys.contains(&h) {
+        let c = seen.entry(h).or_insert(0);
+        *c += 1;
+        return if *c > 1 { 1 } else { 0 };
+    }
+    match table {
+        V::P(a, b) => surplus_leaves(a, keys, seen) + surplus_leaves(b, keys, seen),
+        _ => 0,
+    }
+}
+
 pub fn drive(args: &HashMap<String, String>) {
     use rand::SeedableRng;
     let n: usize = args.get("n").map(|s| s.parse().unwrap()).unwrap_or(100);
@@ -118,12 +134,17 @@ pub fn drive(args: &HashMap<String, String>) {
             entries.push(json!({"name": name, "args_text": args_text, "pat_text": pat_text, "in_program": in_program,
                 "is_user_function": matches!(helper, Some(Helper::Defun { .. })), "inline": matches!(helper, Some(Helper::Defun { inline: true, .. })), "calls": calls}));
         }
+        let keys: std::collections::HashSet<String> = syms.keys().filter(|k| k.len() == 64).cloned().collect();
+        let shared_code = surplus_leaves(&table, &keys, &mut HashMap::new());
+        if shared_code > 0 {
+            rep.count("functions_sharing_code_with_another");
+        }
         rep.traces += 1;
         if !entries.is_empty() {
             rep.nontrivial(&format!("{}|{}", p.render(""), b));
         }
         writeln!(tf, "{}", json!({"ast": p.to_json(), "build": b, "optimized": b.ends_with("+O") || b.starts_with("cl23") || b.starts_with("cl24"),
-            "reports_symbols": !syms.is_empty(), "entries": entries})).unwrap();
+            "reports_symbols": !syms.is_empty(), "shared_code": shared_code, "entries": entries})).unwrap();
         writeln!(cf, "{}", json!({"source": p.render(crate::p_compile::sigil_of(b)), "build": b, "symbols": syms})).unwrap();
         if rep.samples.len() < 3 && entries.len() > 1 {
             rep.sample(json!({"source": p.render(crate::p_compile::sigil_of(b)), "entries": entries}));
